@@ -3,7 +3,6 @@
 package gen
 
 import (
-	"bytes"
 	"encoding/binary"
 	"fmt"
 )
@@ -115,6 +114,7 @@ const (
 	KeysMixed                  // mixture incl. boundary lengths 255/256/65535
 	KeysMagic                  // keys containing the magic markers
 	KeysDigits                 // fixed-width decimal
+	KeysLong                   // non-periodic keys around the 240/256/4080/4096-byte boundaries, sharing long prefixes
 	NumKeyClasses
 )
 
@@ -128,6 +128,20 @@ func Keys(r *R, n int, class KeyClass) [][]byte {
 		}
 		seen[string(k)] = true
 		res = append(res, k)
+	}
+	// long keys are cut from one random family string so that they are not
+	// periodic and differ from each other only in a few bytes near the end
+	var fam []byte
+	longKey := func(l int) []byte {
+		if fam == nil {
+			fam = r.Bytes(0xffff)
+		}
+		k := append([]byte{}, fam[:l]...)
+		k[0] = byte('A' + r.Intn(3))
+		for i, m := 0, r.Range(1, 4); i < m; i++ {
+			k[l-1-r.Intn(min(l, 24))] = byte(r.Intn(256))
+		}
+		return k
 	}
 	for tries := 0; len(res) < n && tries < 100*n+100; tries++ {
 		switch class {
@@ -151,13 +165,17 @@ func Keys(r *R, n int, class KeyClass) [][]byte {
 		case KeysMixed:
 			switch r.Intn(12) {
 			case 0:
-				add(bytes.Repeat([]byte{byte('A' + r.Intn(3))}, 255))
+				add(longKey(255))
 			case 1:
-				add(bytes.Repeat([]byte{byte('A' + r.Intn(3))}, 256))
+				add(longKey(256))
 			case 2:
-				add(bytes.Repeat([]byte{byte('A' + r.Intn(2))}, 65535))
+				add(longKey(65535))
 			case 3:
 				add([]byte{byte(r.Intn(256))})
+			case 4:
+				add(longKey(r.Range(241, 700)))
+			case 5:
+				add(longKey(r.Range(4081, 6000)))
 			default:
 				add(r.Bytes(r.Range(1, 12)))
 			}
@@ -171,6 +189,19 @@ func Keys(r *R, n int, class KeyClass) [][]byte {
 			add(k)
 		case KeysDigits:
 			add([]byte(fmt.Sprintf("%04d", r.Intn(10*n+10))))
+		case KeysLong:
+			switch r.Intn(8) {
+			case 0:
+				add(longKey(r.Range(236, 260)))
+			case 1, 2:
+				add(longKey(r.Range(241, 900)))
+			case 3:
+				add(longKey(r.Range(4070, 4100)))
+			case 4, 5:
+				add(longKey(r.Range(4081, 9000)))
+			default:
+				add(r.Bytes(r.Range(1, 12)))
+			}
 		}
 	}
 	for i := 0; len(res) < n; i++ { // fallback, always terminates
